@@ -513,6 +513,7 @@ impl<'a> Gen<'a> {
                         "\"OK\"",
                         "Fix: use \"quotes\" \\ and caf\u{e9} \u{1f600}\nsecond line",
                         "",
+                        " \n\t",
                         "OK..",
                     ])
                     .to_string(),
@@ -711,7 +712,8 @@ impl<'a> Gen<'a> {
                 self.world.files[i].diff = FileDiff::Added;
             } else if roll < 8 && allow_insert {
                 if let Some(l) = self.pick_insert_line(i) {
-                    self.world.files[i].diff = FileDiff::Insert { line: l, renamed_from: None };
+                    self.world.files[i].diff = FileDiff::Insert { line: l, renamed_from: None, edit: LineEdit::Inserted };
+                    self.vary_edit(i);
                 }
             }
         }
@@ -724,7 +726,7 @@ impl<'a> Gen<'a> {
         if !self.rng.chance(1, 3) {
             return;
         }
-        let FileDiff::Insert { line, .. } = self.world.files[i].diff.clone() else {
+        let FileDiff::Insert { line, edit, .. } = self.world.files[i].diff.clone() else {
             return;
         };
         let path = self.world.files[i].path.clone();
@@ -743,7 +745,34 @@ impl<'a> Gen<'a> {
             })
             || self.world.files.iter().any(|g| matches!(&g.diff, FileDiff::Insert { renamed_from: Some(o), .. } if *o == old));
         if !collides {
-            self.world.files[i].diff = FileDiff::Insert { line, renamed_from: Some(old) };
+            self.world.files[i].diff = FileDiff::Insert { line, renamed_from: Some(old), edit };
+        }
+    }
+
+    /// Now and then the one-line change of file `i` is not an added line: the line replaces another
+    /// one, or a line in front of it (or, for the last content line, behind it) was removed. What
+    /// the old line said is irrelevant to blockwatch (it reads the new file only); it is a unique
+    /// word so that git has exactly one way to write the diff.
+    pub fn vary_edit(&mut self, i: usize) {
+        let FileDiff::Insert { line, renamed_from, .. } = self.world.files[i].diff.clone() else {
+            return;
+        };
+        let old = format!("gone{}", self.rng.below(1000));
+        let r = render_file(&self.world.files[i], false);
+        if r.lines.iter().any(|l| *l == old) {
+            return;
+        }
+        match self.rng.below(10) {
+            0..=2 => {
+                self.world.files[i].diff = FileDiff::Insert { line, renamed_from, edit: LineEdit::Replaced { old } };
+            }
+            3..=5 => {
+                // behind the last content line: the line that follows is the block's end tag
+                let next_is_end_tag = r.blocks.iter().any(|b| b.end_line == line + 1);
+                let line = if next_is_end_tag && self.rng.chance(1, 2) { line + 1 } else { line };
+                self.world.files[i].diff = FileDiff::Insert { line, renamed_from, edit: LineEdit::Removed { old } };
+            }
+            _ => {}
         }
     }
 
@@ -827,6 +856,8 @@ impl<'a> Gen<'a> {
         if self.uses_lua() && self.world.env.lua_mode.is_none() && self.rng.chance(2, 3) {
             self.world.env.lua_mode = Some("safe".into());
         }
+        // `git diff` shows three unchanged lines around a change unless told otherwise
+        self.world.diff_context = *self.rng.pick(&[0usize, 0, 3, 3, 1]);
         self.gen_plan_seeds();
         (self.world, self.plan)
     }
